@@ -23,14 +23,22 @@ func init() {
 			return evid.Spec{ID: "C03", Level: "exploration", Exhaustive: true,
 				Rule: "product of secrets x session ids x versions x sequence numbers x flag octets x body lengths (see coverage.alphabet); each case runs four directions on the real code: " +
 					"server reads (handler must see the cleartext and the untouched header), server writes (raw bytes on the scripted connection must equal cleartext XOR reference pad), " +
-					"Client.Send writes, Client.Send reads. distinct_nontrivial counts distinct (direction, secret, session, version, seq, flags, length) tuples whose body is non-empty",
+					"Client.Send writes, Client.Send reads. distinct_nontrivial counts distinct (direction, secret, session, version, seq, flags, length) tuples whose body is non-empty. Plus (engine E2) two connections exchanging obfuscated packets concurrently under the controlled scheduler, every schedule with <= 1 (quick) / 2 (thorough) deviations",
 				Assumptions: []string{"mc/ref/pad.go restates RFC 8907 section 4.5 on top of Go's crypto/md5",
 					"bodies are shaped like an authentication REPLY so that the receiver's key-mismatch heuristic lets them through; their variable part is position-dependent bytes"},
 				Extra: map[string]interface{}{"alphabet": c03Alphabet(tier == "quick")}}
 		},
-		Workers: constInt(16, 16),
-		Run:     c03Run,
-		Replay:  c03Replay,
+		Workers:      constInt(16, 16),
+		SchedWorkers: constInt(1, 1),
+		Run: func(c *Ctx) {
+			if c.Param == "sched" {
+				schedRun(c)
+				return
+			}
+			c03Run(c)
+		},
+		Replay: c03Replay,
+		Post:   schedPost,
 	}
 }
 
